@@ -238,12 +238,24 @@ def _mass(prog):
                     a0 = call.args[0]
                     a0v = src.get(ast.unparse(a0)) if isinstance(a0, ast.Name) else a0
                     lower = get_kw(call, "lower")
-                    okL = (a0v is not None and ast.unparse(a0v) in ("cholesky(inv_mass)", "cholesky(self.inv_mass)")
+                    cq = c2.module.imports.get("cholesky", "")
+                    chol_lower = cq.startswith("numpy.linalg") or (
+                        isinstance(a0v, ast.Call) and any(k.arg == "lower" and ast.unparse(k.value) == "True" for k in a0v.keywords)
+                        and cq.startswith("scipy.linalg"))
+                    if isinstance(a0v, ast.Call) and not chol_lower:
+                        why_chol = (f"; `cholesky` resolves to {cq or 'an unknown callee'}, which does not return the lower factor "
+                                    f"that solve_triangular(..., lower=True) reads")
+                    else:
+                        why_chol = ""
+                    okL = (a0v is not None and chol_lower
+                           and ast.unparse(a0v).split("(")[0] == "cholesky"
+                           and ast.unparse(a0v.args[0]) in ("inv_mass", "self.inv_mass")
                            and ast.unparse(call.args[1]).startswith("eye(")
                            and lower is not None and ast.unparse(lower) == "True"
                            and ast.unparse(src.get("self.inv_mass")) == "inv_mass")
                 ok = okp and okL
-                why = f"draw `{ast.unparse(sret.value)}`; L = `{ast.unparse(L) if L is not None else None}`"
+                why = f"draw `{ast.unparse(sret.value)}`; L = `{ast.unparse(L) if L is not None else None}`" + (
+                    why_chol if "why_chol" in dir() else "")
         out.append(struct_ob("momentum-law", qual(c2, sm) + f"[{ci.name}]", ok,
                              "momenta must be drawn with covariance inverse to inv_mass (the kinetic energy's metric): " + why,
                              MASS, sm.lineno))
